@@ -61,7 +61,7 @@ def run(ctx: Ctx) -> None:
     from ahbicht.expressions.ahb_expression_evaluation import evaluate_ahb_expression_tree
 
     ctx.rule = ("trees from the condition parser, the AHB parser and the resolver (with packages/time conditions); evaluation results of random AHB expressions "
-                "under random content results incl. UNKNOWN outcomes; content results with None hints, empty dictionaries, with/without packages and id; evaluated format constraints produced by the predefined 931-935 on ordinary / malformed / extreme inputs; key extracts (sanitised, unsanitised with repeated keys, after time-condition expansion, hand-made with repeats and numeric ties); "
+                "under random content results incl. UNKNOWN outcomes; content results with None hints, empty dictionaries, with/without packages and id (some ids repeated with other content); schema instances fresh or re-used; evaluated format constraints produced by the predefined 931-935 on ordinary / malformed / extreme inputs; key extracts (sanitised, unsanitised with repeated keys, after time-condition expansion, hand-made with repeats and numeric ties); "
                 "distinct = (class, dumped JSON)")
     ctx.coverage["generated_changed"] = extract.regenerate(["Schemas"])
     ok = ctx.lean_build(MODULES)
@@ -74,7 +74,11 @@ def run(ctx: Ctx) -> None:
     rng = ctx.rng
     items = []  # (cls, schema, object, equality-key function)
 
+    shared = {}  # one schema instance per class that is used again and again (as applications do), next to fresh instances
+
     def add(cls, schema, obj, keyfn=lambda o: o, extra=None):
+        if rng.random() < 0.5:
+            schema = shared.setdefault(type(schema), schema)
         items.append((cls, schema, obj, keyfn, extra))
 
     g = V.Gen(rng)
@@ -127,7 +131,7 @@ def run(ctx: Ctx) -> None:
             format_constraints={str(901 + i): EvaluatedFormatConstraint(format_constraint_fulfilled=rng.random() < 0.5, error_message=rng.choice([None, "msg", ""])) for i in range(n)},
             requirement_constraints={rng.choice(["1", "17", "2001", "499", "2499"]): impl_cfv(rng) for _ in range(rng.randint(0, 4))},
             packages=rng.choice([None, {}, {"7P": "[1] U [2]"}]),
-            id=rng.choice([None, uuid.UUID(int=rng.getrandbits(128))]))
+            id=rng.choice([None, uuid.UUID(int=rng.getrandbits(128)), uuid.UUID(int=rng.randint(1, 3))]))  # a few ids come back with other content
         add("cer", ContentEvaluationResultSchema(), cer)
         add("efc", EvaluatedFormatConstraintSchema(), EvaluatedFormatConstraint(format_constraint_fulfilled=rng.random() < 0.5, error_message=rng.choice([None, "m"])))
     # evaluated format constraints as the library itself produces them (the predefined 931-935 on ordinary, malformed and extreme inputs)
